@@ -33,3 +33,543 @@ def system_macros(stds=("c++14",)):
                 names.add(m.group(1))
     _MACROS[key] = names
     return names
+
+
+# ------------------------------------------------------------------------------
+# module generator
+# ------------------------------------------------------------------------------
+
+CPP_KEYWORDS = """alignas alignof and and_eq asm auto bitand bitor bool break case catch char char16_t char32_t class
+compl const constexpr const_cast continue decltype default delete do double dynamic_cast else enum explicit export
+extern false float for friend goto if inline int long mutable namespace new noexcept not not_eq nullptr operator or
+or_eq private protected public register reinterpret_cast return short signed sizeof static static_assert static_cast
+struct switch template this thread_local throw true try typedef typeid typename union unsigned using virtual void
+volatile wchar_t while xor xor_eq""".split()    # ISO C++11/14/17 [lex.key] + alternative tokens (the specification side)
+
+FIXED_MEMBER_NAMES = ["Ok", "Storage", "Equals", "IsComplete", "CopyFrom", "IsAggregate", "SizeIsKnown", "BackingStorage",
+                      "TryToCopyFrom", "UncheckedEquals", "SizeInBytes", "IntrinsicSizeInBytes", "MaxSizeInBytes",
+                      "WriteToTextStream", "UpdateFromTextStream"]
+
+SNAKE_RE = re.compile(r"[a-z][a-z_0-9]*\Z")
+CAMEL_RE = re.compile(r"[A-Z][a-zA-Z0-9]*[a-z][a-zA-Z0-9]*\Z")
+SHOUTY_RE = re.compile(r"[A-Z][A-Z_0-9]*[A-Z_][A-Z_0-9]*\Z")
+
+
+def snake_to_camel_py(name):
+    """Independent re-implementation (checked against the Coq model on every run)."""
+    out, start = [], True
+    for ch in name:
+        if ch == "_":
+            start = True
+            continue
+        out.append(ch.upper() if start else ch.lower())
+        start = False
+    return "".join(out)
+
+
+class NamesModule:
+    """A module that exercises nested/inline types, parameters, imports, namespaces, virtual fields,
+    [requires], conditions, enum_case, and awkward identifier shapes.  `p_bad` scales the probability
+    of the features that are known or suspected to produce ill-formed C++."""
+
+    def __init__(self, rng, reserved, macros, p_bad=1.0, force=None):
+        self.r = rng
+        self.reserved = set(reserved)
+        self.macros = set(macros)
+        self.p_bad = p_bad
+        self.force = force            # name of one bad feature to include for sure (targeted rediscovery)
+        self.features = set()
+        self.scopes = []
+        self.structs = []
+        self.enums = []
+        self.type_names = set()
+        self.files = {}
+        self.build()
+
+    # ---- helpers ------------------------------------------------------------
+    def bad(self, feature, p):
+        if self.force == feature:
+            self.force = None
+            self.features.add(feature)
+            return True
+        if self.force is None and self.r.random() < p * self.p_bad:
+            self.features.add(feature)
+            return True
+        return False
+
+    def ok_name(self, s):
+        return s not in self.reserved and s not in self.macros
+
+    def snake(self, used):
+        r = self.r
+        for _ in range(300):
+            k = r.random()
+            if k < 0.55:
+                s = "".join(r.choice("abcdefghijklmnopqrstuvwxyz") for _ in range(r.randint(1, 5)))
+                if r.random() < 0.5:
+                    s += "_" + "".join(r.choice("abcdefghijklmnopqrstuvwxyz0123456789") for _ in range(r.randint(1, 4)))
+            elif k < 0.7:
+                s = r.choice("abcxyz") + r.choice(["_", "__", "_1", "1", "1_", "_a_", "__b", "_1_2", "9z"]) + r.choice(["", "a", "b1", "_"])
+            elif k < 0.85:
+                kw = r.choice(CPP_KEYWORDS)
+                s = r.choice([kw + "_", kw + "1", "x" + kw, kw + "_" + kw, "my_" + kw])
+            else:
+                s = r.choice(["value", "size", "data", "ok", "read", "write", "view", "storage", "type", "std", "emboss",
+                              "support", "k", "t", "e", "os", "has", "has1", "generic", "make", "other", "result",
+                              "buffer", "length", "count", "self", "it", "end", "begin", "first", "second"])
+            if SNAKE_RE.match(s) and s not in used and self.ok_name(s) and not s.startswith("emboss_reserved") \
+                    and not s.startswith("has_") and not s.endswith("_"):
+                used.add(s)
+                return s
+        raise RuntimeError("no fresh snake name")
+
+    def snake_trailing(self, used):
+        # names that end with '_' but collide with nothing generated
+        for _ in range(100):
+            s = self.snake(set()) + "_"
+            if s not in used and self.ok_name(s) and s not in ("backing_", "parameters_initialized_"):
+                used.add(s)
+                return s
+        raise RuntimeError("no fresh name")
+
+    def camel(self):
+        r = self.r
+        for _ in range(300):
+            k = r.random()
+            if k < 0.7:
+                s = "".join(r.choice("ABCDEFGHKLMNPQRSTVWXYZ") + "".join(r.choice("abcdefghijklmnopqrstuvwxyz0123456789")
+                                                                       for _ in range(r.randint(1, 4)))
+                            for _ in range(r.randint(1, 2)))
+            else:
+                s = r.choice(["Viewer", "Writers", "Gen", "Mak", "Maker", "Aligned", "AlignedThing", "Std", "Emboss", "Support",
+                              "Traits", "Enum", "EnumTrait", "Type", "Value", "Maybe", "Prelude", "Uint", "Flagx", "Inner",
+                              "Outer", "T1", "Tt", "Okay", "Storages", "Ab1", "A1b"])
+            if CAMEL_RE.match(s) and s not in self.type_names and self.ok_name(s) and not s.startswith("EmbossReserved") \
+                    and not s.startswith(("Generic", "Make")) and not s.endswith(("View", "Writer")):
+                self.type_names.add(s)
+                return s
+        raise RuntimeError("no fresh CamelCase name")
+
+    def shouty(self, used, plain=False):
+        r = self.r
+        for _ in range(300):
+            if plain or r.random() < 0.6:
+                s = "_".join("".join(r.choice("ABCDEFGHIJKLMNOPQRSTUVWXYZ") for _ in range(r.randint(2, 4)))
+                             for _ in range(r.randint(1, 3)))
+            else:
+                s = r.choice("ABCXYZ") + r.choice(["A", "B1", "_A", "_B_C", "A_B1", "AA_1A", "Z9_X"])
+            if SHOUTY_RE.match(s) and s not in used and self.ok_name(s) and not s.startswith("EMBOSS_RESERVED"):
+                used.add(s)
+                return s
+        raise RuntimeError("no fresh SHOUTY name")
+
+    # ---- enums --------------------------------------------------------------
+    def make_enum(self, name, default_case_outer, indent, big=False):
+        """Returns (lines, enum description).  All names have letter boundaries unless a bad feature fires."""
+        r = self.r
+        used = set()
+        n = r.randint(1, 5)
+        vals = []
+        dc = r.choice([None, None, "kCamelCase", "SHOUTY_CASE", "SHOUTY_CASE, kCamelCase"])
+        value = 0
+        for i in range(n):
+            nm = self.shouty(used, plain=True)
+            value += r.choice([0, 1, 1, 2, 5]) if i else r.choice([0, 1, 3])
+            attr = r.choice([None, None, None, "kCamelCase", "kCamelCase, SHOUTY_CASE"])
+            vals.append([nm, value, attr])
+        if big:
+            vals.append([self.shouty(used, plain=True), 2**63 + r.randint(0, 5), None])
+            vals.append([self.shouty(used, plain=True), 2**64 - 1, None])
+        eff = lambda a: a if a is not None else (dc if dc is not None else default_case_outer)
+        if self.bad("enum-case-collision", 0.03):
+            base = r.choice("ABCXYZ") + r.choice("ABCXYZ")
+            a, b = base + "_1", base + "1"
+            if a not in used and b not in used:
+                vals.append([a, value + 1, "kCamelCase"])
+                vals.append([b, value + 2, "kCamelCase"])
+        if self.bad("enum-name-is-macro", 0.02):
+            cands = sorted(m for m in self.macros if SHOUTY_RE.match(m) and m not in self.reserved
+                           and not m.startswith(("EMBOSS_", "_")) and m not in used)
+            if cands:
+                vals.append([r.choice(cands), value + 3, None])
+        lines = ["%senum %s:" % (indent, name)]
+        if dc is not None:
+            lines.append('%s  [(cpp) $default enum_case: "%s"]' % (indent, dc))
+        for nm, v, attr in vals:
+            l = "%s  %s = %d" % (indent, nm, v)
+            if attr is not None:
+                l += '  [(cpp) enum_case: "%s"]' % attr
+            lines.append(l)
+        desc = dict(name=name, values=[(nm, v, eff(attr)) for nm, v, attr in vals])
+        self.scopes.append(dict(kind="enum", where=name, values=desc["values"]))
+        return lines, desc
+
+    # ---- structs ------------------------------------------------------------
+    def make_struct(self, name, path, depth, default_case, avail_enums, avail_structs, indent=""):
+        """avail_enums: [(emboss reference text, enum desc, cpp path)], avail_structs: [(ref text, struct desc)]
+        Returns (lines, struct description)."""
+        r = self.r
+        used = set()
+        lines = []
+        fields = []           # for the class scope
+        drv_fields = []       # for the driver
+        nested_enums, nested_structs = [], []
+        sub_lines = []
+        my_enums = list(avail_enums)
+        my_structs = list(avail_structs)
+        dc = default_case
+        attr_lines = []
+        if r.random() < 0.15:
+            dc = r.choice(["kCamelCase", "SHOUTY_CASE, kCamelCase"])
+            attr_lines.append('%s  [(cpp) $default enum_case: "%s"]' % (indent, dc))
+        # nested types first
+        if depth < 2 and r.random() < 0.45:
+            for _ in range(r.choice([1, 1, 2])):
+                if r.random() < 0.6:
+                    en = self.camel()
+                    if self.bad("nested-enum-named-like-member", 0.02):
+                        en = r.choice(FIXED_MEMBER_NAMES)
+                    if self.bad("nested-type-named-like-generated", 0.015) and nested_structs:
+                        en = nested_structs[0] + r.choice(["View", "Writer"])
+                    if en in nested_enums or en in nested_structs:
+                        continue
+                    el, ed = self.make_enum(en, dc, indent + "  ")
+                    ed["cpp"] = path + [name, en]
+                    self.enums.append(ed)
+                    sub_lines += el
+                    nested_enums.append(en)
+                    my_enums.append((en, ed))
+                else:
+                    sn = self.camel()
+                    sl, sd = self.make_struct(sn, path + [name], depth + 1, dc, my_enums, [], indent + "  ")
+                    sub_lines += sl
+                    nested_structs.append(sn)
+                    if not sd["params"]:
+                        my_structs.append((sn, sd))
+        # parameters
+        params = []
+        if depth > 0 or r.random() < 0.3:
+            if r.random() < 0.35:
+                for _ in range(r.choice([1, 1, 2])):
+                    pn = self.snake(used)
+                    if self.bad("parameter-named-backing", 0.01):
+                        pn = "backing" if "backing" not in used else pn
+                        used.add(pn)
+                    if my_enums and r.random() < 0.4:
+                        ref, ed = r.choice(my_enums)
+                        params.append(dict(name=pn, type=ref, enum=ed))
+                    else:
+                        params.append(dict(name=pn, type="UInt:%d" % r.choice([4, 8, 16, 32]), enum=None))
+        head = "%sstruct %s%s:" % (indent, name, ("(" + ", ".join("%s: %s" % (p["name"], p["type"]) for p in params) + ")") if params else "")
+        # physical fields
+        off = 0
+        body = []
+        int_fields = []      # names of unsigned integer fields usable in expressions: (name, bits)
+        enum_fields = []     # (name, enum desc)
+        n_phys = r.randint(1, 5)
+        tag = None
+        for i in range(n_phys):
+            fname = None
+            if self.bad("field-has-prefix-collision", 0.015) and fields:
+                cand = "has_" + fields[0]["name"]
+                if cand not in used:
+                    fname = cand
+                    used.add(cand)
+            if fname is None and self.bad("field-named-private-member", 0.015):
+                cand = r.choice(["backing_"] + ([params[0]["name"] + "_"] if params else []) +
+                                (["parameters_initialized_"] if params else []))
+                if cand not in used:
+                    fname = cand
+                    used.add(cand)
+            if fname is None and self.bad("field-name-is-macro", 0.01):
+                cands = sorted(m for m in self.macros if SNAKE_RE.match(m) and m not in self.reserved and m not in used
+                               and not m.startswith("_"))
+                if cands:
+                    fname = r.choice(cands)
+                    used.add(fname)
+            if fname is None:
+                fname = self.snake_trailing(used) if (r.random() < 0.08 and not params) else self.snake(used)
+            k = r.random()
+            req = ""
+            requires = False
+            if k < 0.4 or i == 0:
+                nbytes = r.choice([1, 1, 2, 4, 8, 3])
+                ty = r.choice(["UInt", "UInt", "Int", "UInt:%d" % (nbytes * 8)]) if i else "UInt"
+                if i == 0:
+                    nbytes = r.choice([1, 2, 4])
+                cls = "int" if ty == "Int" else "uint"
+                if r.random() < 0.25:
+                    requires = True
+                    req = "    [requires: this %s %d]" % (r.choice(["<", ">", "!=", "<=", ">="]), r.randint(0, 100))
+                body.append("%s  %d [+%d]  %s  %s%s" % (indent, off, nbytes, ty, fname, ""))
+                if req:
+                    body.append(indent + req)
+                if cls == "uint":
+                    int_fields.append((fname, nbytes * 8))
+                    if tag is None:
+                        tag = (fname, nbytes * 8)
+                drv_fields.append(dict(name=fname, cls=cls))
+                off += nbytes
+            elif k < 0.5:
+                nbytes = r.choice([1, 2, 4])
+                body.append("%s  %d [+%d]  Bcd  %s" % (indent, off, nbytes, fname))
+                drv_fields.append(dict(name=fname, cls="uint"))
+                off += nbytes
+            elif k < 0.57:
+                nbytes = r.choice([4, 8])
+                body.append("%s  %d [+%d]  Float  %s" % (indent, off, nbytes, fname))
+                drv_fields.append(dict(name=fname, cls="float"))
+                off += nbytes
+            elif k < 0.7 and my_enums:
+                ref, ed = r.choice(my_enums)
+                nbytes = r.choice([1, 2, 4, 8])
+                body.append("%s  %d [+%d]  %s  %s" % (indent, off, nbytes, ref, fname))
+                drv_fields.append(dict(name=fname, cls="enum"))
+                enum_fields.append((fname, ed))
+                off += nbytes
+            elif k < 0.8 and my_structs:
+                ref, sd = r.choice(my_structs)
+                body.append("%s  %d [+%d]  %s  %s" % (indent, off, sd["size"], ref, fname))
+                drv_fields.append(dict(name=fname, cls="struct"))
+                off += sd["size"]
+            elif k < 0.88:
+                cnt = r.choice([1, 2, 3])
+                eb = r.choice([1, 2])
+                body.append("%s  %d [+%d]  UInt:%d[%d]  %s" % (indent, off, cnt * eb, eb * 8, cnt, fname))
+                drv_fields.append(dict(name=fname, cls="array"))
+                off += cnt * eb
+            else:
+                # inline bits with a flag, a small uint and maybe an enum
+                cb = r.choice([1, 2, 4])
+                u2 = set()
+                f1, f2 = self.snake(used), self.snake(used)
+                body.append("%s  %d [+%d]  bits:" % (indent, off, cb))
+                body.append("%s    0 [+1]  Flag  %s" % (indent, f1))
+                body.append("%s    1 [+%d]  UInt  %s" % (indent, cb * 8 - 2, f2))
+                fields.append(dict(name=f1, kind="alias", requires=False))
+                fields.append(dict(name=f2, kind="alias", requires=False))
+                drv_fields.append(dict(name=f1, cls="flag"))
+                drv_fields.append(dict(name=f2, cls="uint"))
+                used.discard(fname)
+                off += cb
+                continue
+            fields.append(dict(name=fname, kind="physical", requires=requires))
+        # conditional fields on the tag (switch pattern)
+        if tag is not None and r.random() < 0.5:
+            tname, tbits = tag
+            consts = [0, 1, 2, 3, 7, 2**tbits - 1]
+            r.shuffle(consts)
+            chosen = consts[:r.randint(1, 3)]
+            if r.random() < 0.3:
+                chosen.append(chosen[0])              # repeated case label
+            if self.bad("switch-negative-label-on-unsigned", 0.02):
+                chosen.append(-1)
+            for c in chosen:
+                fn = self.snake(used)
+                body.append("%s  if %s == %d:" % (indent, tname, c))
+                body.append("%s    %d [+1]  UInt  %s" % (indent, off, fn))
+                fields.append(dict(name=fn, kind="physical", requires=False))
+                drv_fields.append(dict(name=fn, cls="uint"))
+            off += 1
+        if enum_fields and r.random() < 0.4:
+            fnm, ed = r.choice(enum_fields)
+            ref = [x for x in my_enums if x[1] is ed][0][0]
+            for (vn, vv, va) in ed["values"][:2]:
+                fn = self.snake(used)
+                body.append("%s  if %s == %s.%s:" % (indent, fnm, ref, vn))
+                body.append("%s    %d [+1]  UInt  %s" % (indent, off, fn))
+                fields.append(dict(name=fn, kind="physical", requires=False))
+                drv_fields.append(dict(name=fn, cls="uint"))
+            off += 1
+        # parameterised sub-structure field
+        param_structs = [(ref, sd) for ref, sd in self.param_structs_visible(path, name)] if depth == 0 else []
+        if param_structs and r.random() < 0.6:
+            ref, sd = r.choice(param_structs)
+            args = []
+            ok = True
+            for p in sd["params"]:
+                if p["enum"] is None:
+                    args.append(str(r.randint(0, 7)) if not int_fields or r.random() < 0.5 else r.choice(int_fields)[0])
+                else:
+                    want = p["enum"]
+                    cands = [(fnm, ed) for fnm, ed in enum_fields if ed is want]
+                    others = [(fnm, ed) for fnm, ed in enum_fields if ed is not want]
+                    if others and self.bad("enum-parameter-type-mismatch", 0.03):
+                        args.append(others[0][0])
+                    elif cands and r.random() < 0.5:
+                        args.append(cands[0][0])
+                    else:
+                        eref = [x for x in my_enums if x[1] is want]
+                        if not eref:
+                            ok = False
+                            break
+                        args.append("%s.%s" % (eref[0][0], want["values"][0][0]))
+            if ok:
+                fn = self.snake(used)
+                body.append("%s  %d [+%d]  %s(%s)  %s" % (indent, off, sd["size"], ref, ", ".join(args), fn))
+                fields.append(dict(name=fn, kind="physical", requires=False))
+                drv_fields.append(dict(name=fn, cls="struct"))
+                off += sd["size"]
+        # virtual fields
+        virt = []
+        if int_fields:
+            for _ in range(r.choice([0, 1, 1, 2, 3])):
+                vn = self.snake(used)
+                a = r.choice(int_fields)[0]
+                k = r.random()
+                if k < 0.5:
+                    body.append("%s  let %s = %s %s %d" % (indent, vn, a, r.choice("+-*"), r.randint(1, 9)))
+                    kind, cls = "virtual", "vint"
+                    virt.append(vn)
+                elif k < 0.65:
+                    body.append("%s  let %s = %s > %d" % (indent, vn, a, r.randint(0, 9)))
+                    kind, cls = "virtual", "vbool"
+                elif k < 0.8:
+                    body.append("%s  let %s = %d" % (indent, vn, r.choice([0, 5, 255, 2**31, 2**32, 2**63 - 1, -2**63, -1, 2**64 - 1])))
+                    kind, cls = "virtual", "vconst"
+                else:
+                    body.append("%s  let %s = %s" % (indent, vn, a))
+                    kind, cls = "alias", "uint"
+                if r.random() < 0.2 and kind == "virtual" and cls == "vint":
+                    body.append("%s    [requires: this < %d]" % (indent, r.randint(100, 10**6)))
+                fields.append(dict(name=vn, kind=kind, requires=False))
+                drv_fields.append(dict(name=vn, cls=cls))
+            if self.bad("virtual-view-name-collision", 0.03):
+                a = r.choice(int_fields)[0]
+                base = r.choice(["foo", "ab", "x1", "val"])
+                n1, n2 = base + "_bar", base + "__bar"
+                if n1 not in used and n2 not in used and self.ok_name(n1):
+                    used.update([n1, n2])
+                    body.append("%s  let %s = %s + 1" % (indent, n1, a))
+                    body.append("%s  let %s = %s + 2" % (indent, n2, a))
+                    for nn in (n1, n2):
+                        fields.append(dict(name=nn, kind="virtual", requires=False))
+                        drv_fields.append(dict(name=nn, cls="vint"))
+            if virt and self.bad("alias-of-virtual", 0.03):
+                vn = self.snake(used)
+                body.append("%s  let %s = %s" % (indent, vn, virt[0]))
+                fields.append(dict(name=vn, kind="alias", requires=False))
+                drv_fields.append(dict(name=vn, cls="vint"))
+        if enum_fields and r.random() < 0.5:
+            fnm, ed = r.choice(enum_fields)
+            ref = [x for x in my_enums if x[1] is ed][0][0]
+            vn = self.snake(used)
+            vname = ed["values"][-1][0]
+            if r.random() < 0.5:
+                body.append("%s  let %s = %s.%s" % (indent, vn, ref, vname))
+                cls = "venum"
+            else:
+                body.append("%s  let %s = %s == %s.%s" % (indent, vn, fnm, ref, vname))
+                cls = "vbool"
+            if ed["values"][-1][1] >= 2**63:
+                self.features.add("enum-constant-above-int64-in-expression")
+            fields.append(dict(name=vn, kind="virtual", requires=False))
+            drv_fields.append(dict(name=vn, cls=cls))
+        if self.bad("validator-name-collision", 0.02) and len(int_fields) >= 1:
+            base = r.choice(["foo", "ab", "x1"])
+            n1, n2 = base + "_req", base + "__req"
+            if n1 not in used and n2 not in used:
+                used.update([n1, n2])
+                for nn in (n1, n2):
+                    body.append("%s  %d [+1]  UInt  %s" % (indent, off, nn))
+                    body.append("%s    [requires: this < 200]" % indent)
+                    fields.append(dict(name=nn, kind="physical", requires=True))
+                    drv_fields.append(dict(name=nn, cls="uint"))
+                    off += 1
+        struct_req = []
+        if int_fields and r.random() < 0.15:
+            struct_req = ["%s  [requires: %s < %d]" % (indent, int_fields[0][0], 2**int_fields[0][1] - 1)]
+        lines = [head] + attr_lines + struct_req + sub_lines + body
+        desc = dict(name=name, cpp=path + [name], params=params, size=off, fields=drv_fields, nested=bool(nested_structs or nested_enums))
+        self.structs.append(desc)
+        self.scopes.append(dict(kind="class", where=".".join(path + [name]), name=name, units="bytes", fields=fields,
+                                params=[p["name"] for p in params], enums=nested_enums))
+        self.scopes.append(dict(kind="ns", where=".".join(path + [name]) + "::", validated=[f["name"] for f in fields if f["requires"]],
+                                structs=nested_structs, enums=nested_enums))
+        return lines, desc
+
+    def param_structs_visible(self, path, name):
+        return [(sd["name"], sd) for sd in self.structs if sd["params"] and len(sd["cpp"]) == 1 and sd["name"] != name]
+
+    # ---- module -------------------------------------------------------------
+    def build(self):
+        r = self.r
+        L = ['[$default byte_order: "%s"]' % r.choice(["LittleEndian", "BigEndian"])]
+        ns = None
+        if r.random() < 0.6:
+            comps = [r.choice(["a", "abc", "x1", "emboss_test", "my_ns", "std2", "detail", "_u", "A", "Zz9"]) for _ in range(r.randint(1, 3))]
+            sep = r.choice(["::", "::", " :: ", ":: "])
+            txt = sep.join(comps)
+            if r.random() < 0.2:
+                txt = "::" + txt
+            if r.random() < 0.15:
+                txt = " " + txt + " "
+            ns = comps
+            L.append('[(cpp) namespace: "%s"]' % txt)
+        self.namespace = ns if ns is not None else ["emboss_generated_code"]
+        mdc = None
+        if r.random() < 0.3:
+            mdc = r.choice(["kCamelCase", "SHOUTY_CASE, kCamelCase", "SHOUTY_CASE"])
+            L.append('[(cpp) $default enum_case: "%s"]' % mdc)
+        imp_types = []
+        if r.random() < 0.25:
+            L.insert(0, 'import "imp.emb" as imp')
+            L.insert(1, "")
+            self.files["imp.emb"] = ('[$default byte_order: "LittleEndian"]\n[(cpp) namespace: "imp::ns"]\n'
+                                     "enum Shared:\n  SH_ONE = 1\n  SH_TWO = 2\n"
+                                     "struct Piece:\n  0 [+2]  UInt  word\n  2 [+1]  Shared  sh\n")
+            self.features.add("import")
+        L.append("")
+        top_enums, top_structs = [], []
+        avail_enums, avail_structs = [], []
+        if "imp.emb" in self.files:
+            sh = dict(name="Shared", values=[("SH_ONE", 1, None), ("SH_TWO", 2, None)], cpp=None)
+            avail_enums.append(("imp.Shared", sh))
+            avail_structs.append(("imp.Piece", dict(name="Piece", size=3, params=[], cpp=None)))
+        for _ in range(r.choice([0, 1, 1, 2])):
+            en = self.camel()
+            el, ed = self.make_enum(en, mdc, "", big=(r.random() < 0.12))
+            ed["cpp"] = [en]
+            self.enums.append(ed)
+            top_enums.append(en)
+            avail_enums.append((en, ed))
+            L += el + [""]
+        n_structs = r.choice([1, 2, 2, 3])
+        for i in range(n_structs):
+            sn = self.camel()
+            sl, sd = self.make_struct(sn, [], 0, mdc, avail_enums, avail_structs)
+            top_structs.append(sn)
+            if not sd["params"]:
+                avail_structs.append((sn, sd))
+            L += sl + [""]
+        if top_structs and self.bad("type-named-like-generated", 0.03):
+            en = r.choice(["", "Generic", "Make"]) + top_structs[0] + r.choice(["View", "Writer"])
+            if en.startswith("Generic"):
+                en = "Generic" + top_structs[0] + "View"
+            if en.startswith("Make"):
+                en = "Make" + top_structs[0] + "View"
+            L += ["enum %s:" % en, "  AA_BB = 1", ""]
+            top_enums.append(en)
+            self.enums.append(dict(name=en, values=[("AA_BB", 1, mdc)], cpp=[en]))
+            self.scopes.append(dict(kind="enum", where=en, values=[("AA_BB", 1, mdc)]))
+        if top_enums and self.bad("type-named-enumtraits", 0.01):
+            L += ["struct EnumTraits:", "  0 [+1]  UInt  et_field", ""]
+            top_structs.append("EnumTraits")
+            self.structs.append(dict(name="EnumTraits", cpp=["EnumTraits"], params=[], size=1, fields=[dict(name="et_field", cls="uint")], nested=False))
+            self.scopes.append(dict(kind="class", where="EnumTraits", name="EnumTraits", units="bytes",
+                                    fields=[dict(name="et_field", kind="physical", requires=False)], params=[], enums=[]))
+        self.scopes.append(dict(kind="ns", where="<module>", validated=[], structs=top_structs, enums=top_enums))
+        self.files["m.emb"] = "\n".join(L) + "\n"
+        # keep "m.emb" first
+        self.files = {"m.emb": self.files["m.emb"], **{k: v for k, v in self.files.items() if k != "m.emb"}}
+
+    def to_dict(self):
+        def clean_struct(sd):
+            return dict(name=sd["name"], cpp=sd["cpp"], size=sd["size"], fields=sd["fields"], nested=sd.get("nested", False),
+                        params=[dict(name=p["name"], type=p["type"],
+                                     enum=(p["enum"]["cpp"] if p["enum"] else None),
+                                     enum_first=(p["enum"]["values"][0][0] if p["enum"] else None),
+                                     enum_first_attr=(p["enum"]["values"][0][2] if p["enum"] else None)) for p in sd["params"]])
+        return dict(files=self.files, namespace=self.namespace, features=sorted(self.features), scopes=self.scopes,
+                    structs=[clean_struct(s) for s in self.structs],
+                    enums=[dict(name=e["name"], cpp=e["cpp"], values=[list(v) for v in e["values"]]) for e in self.enums if e.get("cpp")])
